@@ -1,6 +1,40 @@
 # C17 — see DESIGN.md §4; shared IRC check logic in irc_common.py
+#   + the lookup-during-restore driver: in the model `reload` (Marshal/Unmarshal) is one atomic step; FSM.Restore hands
+#     the fresh IRCServer to the HTTP handlers before Unmarshal runs, so lookups race with the load.  A session that is in
+#     the snapshot must be answered "not yet seen" or found, never "no such session" (C17: "a lagging follower never tells
+#     a client its live session is gone").
+import os
+import vlib
 from props import irc_common
+
+
+def restore_lookup(ck):
+    wd = vlib.workdir()
+    outp = os.path.join(wd, "lookup.out")
+    if os.path.exists(outp):
+        os.remove(outp)
+    rounds = 20 if ck.tier == "quick" else 300
+    ov = {os.path.join(vlib.REPO, "internal/ircserver/zz_verif_lookup_test.go"): os.path.join(vlib.HGO, "ircserver/zz_verif_lookup_test.go")}
+    rc, out = vlib.go_test("./internal/ircserver/", ov, "^TestVerifRestoreLookup$",
+                           {"VERIF_OUT": outp, "VERIF_ROUNDS": str(rounds), "VERIF_SESSIONS": "3000"}, timeout=900)
+    if rc != 0 or not os.path.exists(outp):
+        ck.add_obligation(False, "lookup-during-restore driver ran")
+        ck.violation("tie-broken:go-driver-lookup", {"what": "the lookup-during-restore driver did not build/run against the current tree",
+                                                     "output": out[-3000:], "obligation": "correspondence (atomicity of reload)"}, concrete=False)
+        return
+    f = dict(x.split("=", 1) for x in open(outp).read().split()[1:])
+    ck.add_obligation(True, "lookup-during-restore driver ran")
+    ck.cov["restore_lookup"] = {k: f[k] for k in ("rounds", "sessions", "ok", "notyet", "nosuch")}
+    ck.cov["evaluations"] = ck.cov.get("evaluations", 0) + int(f["rounds"])
+    if int(f["nosuch"]) > 0:
+        ck.violation("c17:nosuch-during-restore", {
+            "what": "while a snapshot with %s sessions was being loaded, %s lookups of sessions contained in it answered 'No such session' (first: round:id %s); "
+                    "a client told so gives its session up" % (f["sessions"], f["nosuch"], f["first"]),
+            "how_to_replay": "bin/check C17 (the driver harness/go/ircserver/zz_verif_lookup_test.go is a schedule search: %s rounds of Unmarshal against 3 polling goroutines)" % f["rounds"],
+            "expected": "only 'Session not yet seen' before and found after"}, concrete=True)
 
 
 def run(ck, replay):
     irc_common.run_irc_check(ck, "C17", "c17", replay)
+    if not replay:
+        restore_lookup(ck)
